@@ -15,6 +15,8 @@ import (
 	"encoding/binary"
 	"errors"
 	"fmt"
+	"os"
+	"strings"
 	"sync"
 	"sync/atomic"
 	"time"
@@ -75,20 +77,25 @@ type quota struct {
 
 // Cfg is the alphabet / bound configuration of one exploration part.
 type Cfg struct {
-	Path       int
-	MaxOut     int      // transfers A -> B after the root
-	MaxIn      int      // transfers B -> A after the root
-	OutKinds   []int    // bit 0: short timeout (expires with B's next block), bit 1: blocked receiver on B (error acknowledgement)
-	InKinds    []int    // 0: receiver is user A, 1: blocked receiver on A (the receive ends in an error acknowledgement)
-	MaxCommits int      // commits per chain after the root (sync or commit ops)
-	MaxEpochs  int      // hour-boundary crossings
+	Path     int
+	MaxOut   int   // transfers A -> B after the root
+	MaxIn    int   // transfers B -> A after the root (in + xin)
+	OutKinds []int // bit 0: short timeout (expires with B's next block), bit 1: blocked receiver on B (error acknowledgement)
+	InKinds  []int // primitive `in` (B sends only): 0 = receiver is user A, 1 = blocked receiver on A (the receive ends in an error acknowledgement)
+	XinKinds []int // macro `xin` = B sends + commit B + honest update of A's client + receive on A (same receiver codes)
+	// block production: macro parts offer sync(chain) = commit + honest update of the other chain's client,
+	// the primitive part offers commit(chain) and client(chain) separately and relays with any of the three newest consensus heights
+	Sync       [2]int // syncs / commits per chain after the root
+	MaxDeliver int    // macro `deliver(i)` = commit A + update B's client + receive packet i on B + commit B + update A's client
+	MaxEpochs  int    // hour-boundary crossings
 	Admin      []string // subset of: add, update, tighten, update2h, remove, reset
 	MaxAdmin   int
 	Toggles    []string // subset of: wl-out, wl-in, bl (keeper-level governance set-up: whitelist pair / blacklist denom)
 	MaxToggles int
-	Primitive  bool // commit / update as separate ops and relays with any of the three newest consensus heights
-	NoRecv     bool // no relays to B (outbound packets can only time out)
+	Primitive  bool
+	NoRecv     bool // no separate recv relays to B
 	NoAck      bool
+	NoTimeout  bool
 }
 
 // Sc implements ksim.Scenario.
@@ -200,10 +207,11 @@ type model struct {
 type ext struct {
 	Pkts    []pkt
 	M       model
-	Commits [2]int
-	Epochs  int
-	Admin   int
-	Toggles int
+	Commits  [2]int
+	Epochs   int
+	Admin    int
+	Toggles  int
+	Delivers int
 
 	// transient results of the last Apply (not part of the state key)
 	fail *ksim.Fail
@@ -211,7 +219,7 @@ type ext struct {
 }
 
 func (e *ext) Clone() ksim.Ext {
-	n := &ext{M: e.M, Commits: e.Commits, Epochs: e.Epochs, Admin: e.Admin, Toggles: e.Toggles}
+	n := &ext{M: e.M, Commits: e.Commits, Epochs: e.Epochs, Admin: e.Admin, Toggles: e.Toggles, Delivers: e.Delivers}
 	n.Pkts = append([]pkt{}, e.Pkts...)
 	return n
 }
@@ -245,7 +253,7 @@ func (e *ext) KeyBytes() []byte {
 	b(m.WLOut)
 	b(m.WLIn)
 	b(m.BL)
-	out = append(out, byte(e.Commits[0]), byte(e.Commits[1]), byte(e.Epochs), byte(e.Admin), byte(e.Toggles))
+	out = append(out, byte(e.Commits[0]), byte(e.Commits[1]), byte(e.Epochs), byte(e.Admin), byte(e.Toggles), byte(e.Delivers))
 	return out
 }
 
@@ -500,12 +508,15 @@ func (s *Sc) Ops(w *ksim.World) []ksim.Op {
 		}
 	}
 	if nIn < s.MaxIn {
+		for _, k := range s.XinKinds {
+			ops = append(ops, ksim.Op{K: "xin", A: []int{k}})
+		}
 		for _, k := range s.InKinds {
 			ops = append(ops, ksim.Op{K: "in", A: []int{k}})
 		}
 	}
 	for ch := 0; ch < 2; ch++ {
-		if e.Commits[ch] < s.MaxCommits {
+		if e.Commits[ch] < s.Sync[ch] {
 			if s.Primitive {
 				ops = append(ops, ksim.Op{K: "commit", A: []int{ch}})
 			} else {
@@ -528,16 +539,21 @@ func (s *Sc) Ops(w *ksim.World) []ksim.Op {
 			}
 			continue
 		}
+		if e.Delivers < s.MaxDeliver && p.Ack == nil && !p.Final {
+			ops = append(ops, ksim.Op{K: "deliver", A: []int{i}})
+		}
 		if !s.NoRecv {
 			for _, ph := range s.proofHeights(w, 1) {
 				ops = append(ops, ksim.Op{K: "recv", A: []int{i, ph}})
 			}
 		}
 		for _, ph := range s.proofHeights(w, 0) {
-			if !s.NoAck && !s.NoRecv {
+			if !s.NoAck {
 				ops = append(ops, ksim.Op{K: "ack", A: []int{i, ph}})
 			}
-			ops = append(ops, ksim.Op{K: "timeout", A: []int{i, ph}})
+			if !s.NoTimeout {
+				ops = append(ops, ksim.Op{K: "timeout", A: []int{i, ph}})
+			}
 		}
 	}
 	if e.Epochs < s.MaxEpochs {
@@ -632,26 +648,38 @@ func (s *Sc) Apply(w *ksim.World, op ksim.Op) ksim.Result {
 				e.wit = append(e.wit, witOutQuotaRejected)
 			}
 		}
-	case "in":
+	case "in", "xin":
 		rcv := userA
 		if op.A[0] == 1 {
 			rcv = blocked
 		}
 		r = w.Tx(1, transfertypes.NewMsgTransfer(port, s.ch.ChanB, sdk.NewInt64Coin(s.sendB, 1), userB.String(), rcv.String(), farHeight, 0, ""))
-		if r.Class == ksim.OK {
-			p, err := ibctesting.ParseV1PacketFromEvents(r.Events)
-			if err != nil {
-				panic(err)
+		if r.Class != ksim.OK {
+			break
+		}
+		p, err := ibctesting.ParseV1PacketFromEvents(r.Events)
+		if err != nil {
+			panic(err)
+		}
+		e.Pkts = append(e.Pkts, pkt{In: true, P: p, Amt: 1, Blocked: op.A[0] == 1})
+		if op.K == "xin" {
+			// the honest relayer delivers at once: block on B, client update on A, receive on A
+			isTx = false
+			w.Commit(1, step)
+			if r = w.UpdateLatest(0, s.link.ClientA, 1); r.Class != ksim.OK {
+				break
 			}
-			e.Pkts = append(e.Pkts, pkt{In: true, P: p, Amt: 1, Blocked: op.A[0] == 1})
+			np := &e.Pkts[len(e.Pkts)-1]
+			r = w.RecvV1(0, 1, np.P, w.ClientLatest(0, s.link.ClientA))
+			opClass = s.onRecvIn(e, pre, np, r, fail)
 		}
 	case "sync":
 		isTx = false
 		ch := op.A[0]
 		if ch == 0 {
-			s.commitA(w, ksim.BlockStep)
+			s.commitA(w, step)
 		} else {
-			w.Commit(1, ksim.BlockStep)
+			w.Commit(1, step)
 		}
 		e.Commits[ch]++
 		r = w.UpdateLatest(1-ch, s.clientOn(1-ch), ch)
@@ -659,9 +687,9 @@ func (s *Sc) Apply(w *ksim.World, op ksim.Op) ksim.Result {
 		isTx = false
 		ch := op.A[0]
 		if ch == 0 {
-			s.commitA(w, ksim.BlockStep)
+			s.commitA(w, step)
 		} else {
-			w.Commit(1, ksim.BlockStep)
+			w.Commit(1, step)
 		}
 		e.Commits[ch]++
 		r = ksim.Result{Class: ksim.OK}
@@ -679,18 +707,23 @@ func (s *Sc) Apply(w *ksim.World, op ksim.Op) ksim.Result {
 			r = r2
 		}
 	case "recv":
-		i := op.A[0]
-		p := &e.Pkts[i]
+		p := &e.Pkts[op.A[0]]
 		r = w.RecvV1(1, 0, p.P, w.Height(0, int64(op.A[1])))
-		if r.Class == ksim.OK {
-			ack, err := ibctesting.ParseAckFromEvents(r.Events)
-			if err != nil {
-				panic(err)
-			}
-			p.Ack = ack
-			if p.AckErr, err = ackIsError(ack); err != nil {
-				panic(err)
-			}
+		onRecvB(p, r)
+	case "deliver":
+		// the honest relayer carries packet i to B and the acknowledgement proof back to A's client
+		isTx = false
+		e.Delivers++
+		p := &e.Pkts[op.A[0]]
+		s.commitA(w, step)
+		if r = w.UpdateLatest(1, s.link.ClientB, 0); r.Class != ksim.OK {
+			break
+		}
+		r = w.RecvV1(1, 0, p.P, w.ClientLatest(1, s.link.ClientB))
+		onRecvB(p, r)
+		w.Commit(1, step)
+		if r2 := w.UpdateLatest(0, s.link.ClientA, 1); r2.Class != ksim.OK {
+			r = r2
 		}
 	case "ack", "timeout":
 		i := op.A[0]
@@ -743,60 +776,9 @@ func (s *Sc) Apply(w *ksim.World, op ksim.Op) ksim.Result {
 		}
 		p.Cur = false
 	case "recvin":
-		i := op.A[0]
-		p := &e.Pkts[i]
+		p := &e.Pkts[op.A[0]]
 		r = w.RecvV1(0, 1, p.P, w.Height(1, int64(op.A[1])))
-		if r.Class == ksim.NOOP && p.Final {
-			e.wit = append(e.wit, witDupRelayNoop)
-		}
-		if r.Class != ksim.OK {
-			break
-		}
-		ack, err := ibctesting.ParseAckFromEvents(r.Events)
-		if err != nil {
-			panic(err)
-		}
-		isErr, err := ackIsError(ack)
-		if err != nil {
-			panic(err)
-		}
-		if p.Final {
-			fail("second-receive/in", "packet %d was received twice", p.P.Sequence)
-			break
-		}
-		p.Final = true
-		wl := pre.WLIn && !p.Blocked
-		refPass := !pre.Exists || wl || within(pre.In-pre.Out+p.Amt, pre.CV, pre.Q.Recv)
-		if isErr {
-			// a receive that ends in an error acknowledgement leaves the flows unchanged
-			opClass = "recvin-errack"
-			switch {
-			case pre.BL:
-				e.wit = append(e.wit, witBlacklisted)
-			case !refPass:
-				e.wit = append(e.wit, witInQuotaRejected)
-			case p.Blocked:
-				e.wit = append(e.wit, witInErrAckOther)
-			default:
-				fail("rejected-within-quota/in", "receive answered with an error acknowledgement (%s) although net inflow %d-%d+%d is within %d%% of the channel value %d recorded at window start (%s)", ack, pre.In, pre.Out, p.Amt, pre.Q.Recv, pre.CV, pre.WinKind)
-			}
-			break
-		}
-		opClass = "recvin-success"
-		if pre.BL {
-			fail("blacklisted-denom-accepted/in", "receive of blacklisted %s succeeded", s.denom)
-		} else if !refPass {
-			fail("accepted-over-quota/in", "receive accepted although net inflow %d-%d+%d exceeds %d%% of the channel value %d recorded at window start (%s)", pre.In, pre.Out, p.Amt, pre.Q.Recv, pre.CV, pre.WinKind)
-		}
-		if pre.Exists && !wl {
-			e.M.In += p.Amt
-			p.Counted, p.Cur = true, true
-			e.wit = append(e.wit, witInAccepted)
-		} else if wl && pre.Exists {
-			e.wit = append(e.wit, witWhitelisted)
-		}
-		// the receive is final with its synchronous acknowledgement: nothing can undo it later
-		p.Cur = false
+		opClass = s.onRecvIn(e, pre, p, r, fail)
 	case "add", "update", "tighten", "update2h", "remove", "reset":
 		e.Admin++
 		q := s.quotaOf(op.K)
@@ -877,6 +859,78 @@ func (s *Sc) Apply(w *ksim.World, op ksim.Op) ksim.Result {
 	return r
 }
 
+// step is the block interval of explored commits (small, so that a few one-sided commits stay within the clients' clock drift).
+const step = time.Second
+
+// onRecvB records the acknowledgement chain B wrote for an outbound packet.
+func onRecvB(p *pkt, r ksim.Result) {
+	if r.Class != ksim.OK {
+		return
+	}
+	ack, err := ibctesting.ParseAckFromEvents(r.Events)
+	if err != nil {
+		panic(err)
+	}
+	p.Ack = ack
+	if p.AckErr, err = ackIsError(ack); err != nil {
+		panic(err)
+	}
+}
+
+// onRecvIn lets the reference model follow a receive on A (acceptance oracle of the inbound direction) and
+// returns the operation class used in violation keys.
+func (s *Sc) onRecvIn(e *ext, pre model, p *pkt, r ksim.Result, fail func(key, format string, a ...any)) string {
+	if r.Class == ksim.NOOP && p.Final {
+		e.wit = append(e.wit, witDupRelayNoop)
+	}
+	if r.Class != ksim.OK {
+		return "recvin-" + string(r.Class)
+	}
+	ack, err := ibctesting.ParseAckFromEvents(r.Events)
+	if err != nil {
+		panic(err)
+	}
+	isErr, err := ackIsError(ack)
+	if err != nil {
+		panic(err)
+	}
+	if p.Final {
+		fail("second-receive/in", "packet %d was received twice", p.P.Sequence)
+		return "recvin-duplicate"
+	}
+	p.Final = true
+	wl := pre.WLIn && !p.Blocked
+	refPass := !pre.Exists || wl || within(pre.In-pre.Out+p.Amt, pre.CV, pre.Q.Recv)
+	if isErr {
+		// a receive that ends in an error acknowledgement leaves the flows unchanged
+		switch {
+		case pre.BL:
+			e.wit = append(e.wit, witBlacklisted)
+		case !refPass:
+			e.wit = append(e.wit, witInQuotaRejected)
+		case p.Blocked:
+			e.wit = append(e.wit, witInErrAckOther)
+		default:
+			fail("rejected-within-quota/in", "receive answered with an error acknowledgement (%s) although net inflow %d-%d+%d is within %d%% of the channel value %d recorded at window start (%s)", ack, pre.In, pre.Out, p.Amt, pre.Q.Recv, pre.CV, pre.WinKind)
+		}
+		return "recvin-errack"
+	}
+	if pre.BL {
+		fail("blacklisted-denom-accepted/in", "receive of blacklisted %s succeeded", s.denom)
+	} else if !refPass {
+		fail("accepted-over-quota/in", "receive accepted although net inflow %d-%d+%d exceeds %d%% of the channel value %d recorded at window start (%s)", pre.In, pre.Out, p.Amt, pre.Q.Recv, pre.CV, pre.WinKind)
+	}
+	if pre.Exists && !wl {
+		// counted; the receive is final with its synchronous acknowledgement, nothing can undo it later
+		e.M.In += p.Amt
+		p.Counted = true
+		e.wit = append(e.wit, witInAccepted)
+	} else if wl && pre.Exists {
+		e.wit = append(e.wit, witWhitelisted)
+	}
+	return "recvin-success"
+}
+
 // compare returns the first field in which the stored rate limit differs from the reference model.
 func (s *Sc) compare(w *ksim.World) (string, string) {
 	m := xt(w).M
@@ -954,27 +1008,47 @@ func (s *Sc) Invariant(w *ksim.World) *ksim.Fail {
 func run(c *core.C) {
 	mk := func(cfg Cfg) *Sc { return &Sc{Cfg: cfg, c: c} }
 	d := core.Pick(c, 0, 2)
-	all := []int{0, 1, 2} // far, short, blocked receiver
+	n3 := core.Pick(c, 2, 3)
+	adminQ := []string{"update", "remove", "add", "reset"}
+	adminT := []string{"update", "tighten", "update2h", "remove", "add", "reset"}
 	parts := []ksim.Part{
-		// full packet life cycle in both directions with epoch resets, no administration
-		{Name: "macro/voucher/lifecycle", Sc: mk(Cfg{Path: pathVoucher, MaxOut: 3, MaxIn: 3, OutKinds: all, InKinds: []int{0, 1}, MaxCommits: 3, MaxEpochs: 1}), Cfg: ksim.Config{MaxDepth: 6 + d}, Share: 0.25},
-		{Name: "macro/native/lifecycle", Sc: mk(Cfg{Path: pathNative, MaxOut: 3, MaxIn: 2, OutKinds: all, InKinds: []int{0, 1}, MaxCommits: 3, MaxEpochs: 1}), Cfg: ksim.Config{MaxDepth: 6 + d}, Share: 0.3},
-		// administration against packets in flight (outbound packets can only time out or be refused by a blocked receiver)
-		{Name: "macro/voucher/admin", Sc: mk(Cfg{Path: pathVoucher, MaxOut: 3, MaxIn: 1, OutKinds: []int{1, 2}, InKinds: []int{0}, MaxCommits: 2, MaxEpochs: 1,
-			Admin: []string{"update", "tighten", "remove", "add", "reset"}, MaxAdmin: 2}), Cfg: ksim.Config{MaxDepth: 6 + d}, Share: 0.45},
-		{Name: "macro/native/admin-timeouts", Sc: mk(Cfg{Path: pathNative, MaxOut: 3, OutKinds: []int{1}, MaxCommits: 2, MaxEpochs: core.Pick(c, 1, 2), NoRecv: true,
-			Admin: core.Pick(c, []string{"update", "remove", "add", "reset"}, []string{"update", "update2h", "remove", "add", "reset"}), MaxAdmin: 2}), Cfg: ksim.Config{MaxDepth: 7 + d}, Share: 0.5},
+		// quota and net flow in both directions, hour epochs (no packet ever fails)
+		{Name: "macro/voucher/flows", Sc: mk(Cfg{Path: pathVoucher, MaxOut: 3, MaxIn: 3, OutKinds: []int{0}, XinKinds: []int{0, 1}, MaxEpochs: 1, NoAck: true, NoRecv: true, NoTimeout: true}),
+			Cfg: ksim.Config{MaxDepth: 6 + d}, Share: 0.12},
+		{Name: "macro/native/flows", Sc: mk(Cfg{Path: pathNative, MaxOut: 3, MaxIn: 2, OutKinds: []int{0}, XinKinds: []int{0, 1}, MaxEpochs: 1, NoAck: true, NoRecv: true, NoTimeout: true}),
+			Cfg: ksim.Config{MaxDepth: 6 + d}, Share: 0.12},
+		// refunds: timeouts and error acknowledgements against epoch resets
+		{Name: "macro/voucher/refunds", Sc: mk(Cfg{Path: pathVoucher, MaxOut: 3, OutKinds: []int{1, 2}, Sync: [2]int{0, 2}, MaxDeliver: 2, MaxEpochs: 1, NoRecv: true}),
+			Cfg: ksim.Config{MaxDepth: 6 + d}, Share: 0.2},
+		// administration against packets in flight
+		{Name: "macro/voucher/admin-timeouts", Sc: mk(Cfg{Path: pathVoucher, MaxOut: n3, MaxIn: 1, OutKinds: []int{1}, XinKinds: []int{0}, Sync: [2]int{0, 1}, MaxEpochs: core.Pick(c, 0, 2), NoRecv: true, NoAck: true,
+			Admin: core.Pick(c, adminQ, adminT), MaxAdmin: 2}), Cfg: ksim.Config{MaxDepth: 6 + d}, Share: 0.3},
+		{Name: "macro/native/admin-error-acks", Sc: mk(Cfg{Path: pathNative, MaxOut: 2, OutKinds: []int{2, 0}, MaxDeliver: 2, NoRecv: true, NoTimeout: true,
+			Admin: core.Pick(c, []string{"update", "reset"}, adminT), MaxAdmin: core.Pick(c, 1, 2)}), Cfg: ksim.Config{MaxDepth: 6 + d}, Share: 0.35},
 		// whitelist / blacklist set-up changes
-		{Name: "macro/voucher/lists", Sc: mk(Cfg{Path: pathVoucher, MaxOut: 3, MaxIn: 2, OutKinds: []int{1}, InKinds: []int{0}, MaxCommits: 2, MaxEpochs: 0,
-			Toggles: []string{"wl-out", "wl-in", "bl"}, MaxToggles: 2, NoRecv: true}), Cfg: ksim.Config{MaxDepth: 6 + d}, Share: 0.6},
-		// primitive steps: separate commit / client update, relays with stale consensus heights
-		{Name: "micro/voucher/stale-relays", Sc: mk(Cfg{Path: pathVoucher, MaxOut: 2, MaxIn: 1, OutKinds: []int{1}, InKinds: []int{0}, MaxCommits: 2, Primitive: true,
-			Admin: []string{"update"}, MaxAdmin: 1}), Cfg: ksim.Config{MaxDepth: 7 + d}},
+		{Name: "macro/voucher/lists", Sc: mk(Cfg{Path: pathVoucher, MaxOut: 3, MaxIn: 2, OutKinds: []int{1}, XinKinds: []int{0}, Sync: [2]int{0, 1}, NoRecv: true, NoAck: true,
+			Toggles: []string{"wl-out", "wl-in", "bl"}, MaxToggles: 2}), Cfg: ksim.Config{MaxDepth: 5 + d}, Share: 0.5},
+		// primitive steps: separate commit / client update, relays with stale consensus heights, duplicates
+		{Name: "micro/voucher/stale-relays", Sc: mk(Cfg{Path: pathVoucher, MaxOut: 2, MaxIn: 1, OutKinds: []int{1}, InKinds: []int{0}, Sync: [2]int{1, 2}, Primitive: true,
+			Admin: []string{"update"}, MaxAdmin: 1}), Cfg: ksim.Config{MaxDepth: 6 + d}},
+	}
+	if f := os.Getenv("VERIF_C41_PART"); f != "" && c.Replay == "" {
+		// development aid: run only the parts whose name contains f (the run is then reported as not exhaustive)
+		var sel []ksim.Part
+		for _, p := range parts {
+			if strings.Contains(p.Name, f) {
+				p.Share = 0
+				sel = append(sel, p)
+			}
+		}
+		parts = sel
+		defer c.Set("exhaustive", false)
 	}
 	ksim.RunParts(c, parts, [][]ksim.Op{
-		{{K: "out", A: []int{1}}, {K: "out", A: []int{1}}, {K: "out", A: []int{1}}, {K: "sync", A: []int{1}}, {K: "timeout", A: []int{0, 0}}, {K: "out", A: []int{1}}},
+		{{K: "out", A: []int{0}}, {K: "out", A: []int{0}}, {K: "xin", A: []int{0}}, {K: "out", A: []int{0}}, {K: "out", A: []int{0}}},
+		{{K: "out", A: []int{1}}, {K: "epoch"}, {K: "out", A: []int{1}}, {K: "timeout", A: []int{0, 0}}},
+		{{K: "out", A: []int{2}}, {K: "deliver", A: []int{0}}, {K: "ack", A: []int{0, 0}}},
 		{{K: "out", A: []int{1}}, {K: "update"}, {K: "out", A: []int{1}}, {K: "sync", A: []int{1}}, {K: "timeout", A: []int{0, 0}}},
-		{{K: "in", A: []int{1}}, {K: "sync", A: []int{1}}, {K: "recvin", A: []int{0, 0}}},
 	})
 	if c.Replay != "" {
 		return
@@ -987,7 +1061,7 @@ func run(c *core.C) {
 		}
 	}
 	c.Set("witness_transitions", tot)
-	if !c.Capped() && c.Violations() == 0 {
+	if !c.Capped() && c.Violations() == 0 && os.Getenv("VERIF_C41_PART") == "" {
 		for _, n := range []string{"out_rejected_by_quota", "in_rejected_by_quota", "in_error_ack_blocked_receiver", "refund_of_packet_counted_in_current_window",
 			"timeout_or_error_ack_of_packet_from_older_window", "epoch_reset", "admin_started_window", "duplicate_relay_noop"} {
 			if tot[n] == 0 {
@@ -995,7 +1069,7 @@ func run(c *core.C) {
 			}
 		}
 	}
-	c.Set("alphabet", "out(far | short timeout | blocked receiver on B) | in(receiver user A | blocked receiver on A) | sync(A|B) = commit + honest client update (micro part: commit / update separately, relays with the 3 newest consensus heights) | recv on B | ack | timeout | recvin on A | epoch (both chains +1h through the real BeginBlockers) | MsgAddRateLimit | MsgUpdateRateLimit (same quota / halved / 2h duration) | MsgRemoveRateLimit | MsgResetRateLimit (authority = gov module) | whitelist pair / blacklist denom toggles (keeper calls: no messages exist); unit amounts; every relay enabled forever")
+	c.Set("alphabet", "out(far | short timeout | blocked receiver on B) | in(receiver user A | blocked receiver on A) | xin = in + block on B + client update + receive on A | deliver(i) = block on A + client update + receive on B + block on B + client update | sync(A|B) = commit + honest client update (micro part: in / commit / client update / recv / recvin separately, relays with the 3 newest consensus heights) | ack | timeout | epoch (both chains +1h through the real BeginBlockers) | MsgAddRateLimit | MsgUpdateRateLimit (same quota / halved / 2h duration) | MsgRemoveRateLimit | MsgResetRateLimit (authority = gov module) | whitelist pair / blacklist denom toggles (keeper calls: no messages exist); unit amounts; every relay enabled forever")
 	c.Set("reference_model", "window = (inflow, outflow, channel value = bank supply read when the window starts, set of packets counted in this window and not yet finalized); quota check net*100 <= channelValue*percent; window starts at add / update / reset / hour epoch whose number is divisible by the duration")
 	c.Assume("counterparty consensus, storage commit and validator signing are played by the harness; one message per transaction, no ante handlers")
 	c.Assume("ibctesting runs InitChain at time zero which leaves the rate-limit hour epoch degenerate; Init installs a well-formed epoch (number 23, started 30 min before the root block) through Keeper.SetHourEpoch")
